@@ -14,6 +14,15 @@ from .boot import LIB_ROOT
 _real_Lock = threading.Lock
 _real_RLock = threading.RLock
 STATE = {'sched': None, 'created': 0, 'contended': 0, 'installed': False}
+import os as _os
+DEBUG = bool(_os.environ.get('VERIF_LOCK_DEBUG'))
+TRACE = []      # ring buffer of recent lock events (dumped when the simulation hangs)
+
+
+def _note(ev, lock, me):
+    TRACE.append((ev, id(lock) % 100000, me, threading.current_thread().name))
+    if len(TRACE) > 4000:
+        del TRACE[:1000]
 
 
 def _current_client():
@@ -41,6 +50,7 @@ class SimLock:
 
     def acquire(self, blocking=True, timeout=-1):
         s, c, me = self._me()
+        _note('acq?', self, me)
         if self._reentrant and self._owner == me:
             self._count += 1
             return True
@@ -48,17 +58,28 @@ class SimLock:
             ok = self._real.acquire(blocking, timeout) if blocking else self._real.acquire(False)
             if ok:
                 self._owner, self._count = me, 1
+                _note('acq!real', self, me)
             return ok
         # simulated caller: never block the only running thread
+        if DEBUG and self._owner == me and not self._reentrant:
+            import traceback
+            sys.stderr.write('SELF-DEADLOCK on a library lock; it was acquired here and never released:\n%s\nnow requested here:\n%s\n'
+                             % (getattr(self, '_where', '?'), ''.join(traceback.format_stack(limit=14))))
+            sys.stderr.flush()
         while not self._real.acquire(False):
             if not blocking:
                 return False
             STATE['contended'] += 1
             s.block_on_lock(c, self, sys._getframe(1))
         self._owner, self._count = me, 1
+        _note('acq!', self, me)
+        if DEBUG:
+            import traceback
+            self._where = ''.join(traceback.format_stack(limit=14))
         return True
 
     def release(self):
+        _note('rel', self, self._owner)
         if self._reentrant:
             self._count -= 1
             if self._count > 0:
